@@ -42,7 +42,10 @@ type Exchange struct {
 	Aborted           bool
 	WritesAfterAbort  int
 	WritesAfterReturn int
-	Panic             any
+	// VoidBytes: body bytes written after the handler had returned (they reach nobody: net/http completed the
+	// response, an empty 200 if nothing had been written, when the handler returned)
+	VoidBytes int
+	Panic     any
 	PanicStack        string
 	Hijacked          bool
 	Client            *memConn // client end when hijacked
@@ -89,10 +92,13 @@ func (r recorder) WriteHeader(code int) {
 		e.mu.Lock()
 	}
 	defer e.mu.Unlock()
-	e.HeaderCalls++
 	if e.Returned {
+		// net/http: a ResponseWriter may not be used after the handler has returned; the response was completed
+		// when it returned and whatever is written now reaches nobody
 		e.WritesAfterReturn++
+		return
 	}
+	e.HeaderCalls++
 	if e.Status == 0 {
 		e.Status = code
 	}
@@ -104,10 +110,12 @@ func (r recorder) Write(p []byte) (int, error) {
 	e := r.e
 	e.mu.Lock()
 	defer e.mu.Unlock()
-	e.WriteCalls++
 	if e.Returned {
 		e.WritesAfterReturn++
+		e.VoidBytes += len(p)
+		return 0, http.ErrHandlerTimeout
 	}
+	e.WriteCalls++
 	if e.Aborted {
 		e.WritesAfterAbort++
 	}
@@ -279,6 +287,9 @@ type ReqSpec struct {
 	// BodyErrIsEncoding: the body read failure injected with FailBodyAt is the body's own (malformed chunked
 	// encoding): the connection is still there, net/http does not cancel the request context
 	BodyErrIsEncoding bool
+	// PreHeader: response headers already set on the ResponseWriter when the engine gets the request (the engine
+	// mounted behind a host application's handler or middleware that sets defaults before delegating)
+	PreHeader http.Header
 }
 
 func NewReq(method, path, query string) ReqSpec {
@@ -303,6 +314,9 @@ func Do(h http.Handler, spec ReqSpec) *Exchange {
 	}
 	e := &Exchange{Method: spec.Method, URL: u.String(), hdr: http.Header{}, cancel: cancel, StartedAt: time.Now(), holdHeader: spec.HoldHeader}
 	e.cond = sync.NewCond(&e.mu)
+	for k, v := range spec.PreHeader {
+		e.hdr[k] = append([]string(nil), v...)
+	}
 	if spec.HasBody {
 		data := spec.Body
 		short := false
@@ -400,6 +414,21 @@ func (e *Exchange) Abort() {
 		e.body.cond.Broadcast()
 		e.body.mu.Unlock()
 	}
+}
+
+// ClientView is what the client of this exchange has received so far: nothing yet (ok=false), the handler's
+// response, or - when the handler returned without writing anything - the empty 200 net/http completes the
+// exchange with.
+func (e *Exchange) ClientView() (status int, body []byte, ok bool) {
+	e.mu.Lock()
+	defer e.mu.Unlock()
+	if e.Responded {
+		return e.Status, append([]byte(nil), e.Body...), true
+	}
+	if e.Returned && !e.Hijacked && e.Panic == nil {
+		return 200, nil, true
+	}
+	return 0, nil, false
 }
 
 type ExSnap struct {
